@@ -119,6 +119,11 @@ func (rd *redisDict) store(key string, val any) {
 			n := uint32(len(rd.buckets))
 			for {
 				n *= 2
+				if n == 0 {
+					// the two hashes agree in every bit a table index can use; without this check n stays
+					// 0, the mask stays 0xffffffff and the loop never ends (with the data store locked)
+					panic("hash collision cannot be resolved by growing the table")
+				}
 				mask := uint64(n - 1)
 				if (item.fullHash & mask) != (fullHash & mask) {
 					rd.rehash(n)
